@@ -16,79 +16,81 @@ pub(crate) fn any_color() -> GcColor {
     match kani::any::<u8>() & 3 { 0 => GcColor::White, 1 => GcColor::WhiteWeak, 2 => GcColor::Gray, _ => GcColor::Black }
 }
 
-/// a header whose four flag bits and `next` link are symbolic
-fn any_header(next: Option<GcPtr>) -> (GcHeader, usize) {
-    let bits: usize = kani::any();
-    kani::assume(bits < 16);
-    let tagged = (vt() as *const GcVtable).map_addr(|a| a | bits);
-    (GcHeader { next: Cell::new(next), tagged_vtable: Cell::new(tagged) }, bits)
+// The header rows are stated over the ACCESSORS only (the shim's model: four independent fields colour / needs_trace / live / next plus an
+// immutable vtable pointer), not over how the crate packs them today: a header in an arbitrary state is built with the setters themselves.
+#[derive(Clone, Copy, PartialEq)]
+struct Obs { color: GcColor, nt: bool, live: bool, next: Option<usize>, vt: usize }
+fn obs(h: &GcHeader) -> Obs {
+    Obs { color: h.color(), nt: h.needs_trace(), live: h.is_live(), next: h.next().map(|p| p.as_ptr() as usize), vt: h.vtable() as *const GcVtable as usize }
 }
-fn color_of_bits(bits: usize) -> GcColor {
-    match bits & 3 { 0 => GcColor::White, 1 => GcColor::WhiteWeak, 2 => GcColor::Gray, _ => GcColor::Black }
+fn any_next(target: &mut u8) -> Option<GcPtr> {
+    if kani::any() { Some(unsafe { GcPtr::from_ptr(target as *mut u8 as *mut ()) }) } else { None }
+}
+/// a header in an arbitrary state
+fn any_header(target: &mut u8) -> (GcHeader, Obs) {
+    let h = GcHeader::new(vt());
+    let want = Obs { color: any_color(), nt: kani::any(), live: kani::any(), next: None, vt: vt() as *const GcVtable as usize };
+    let nx = any_next(target);
+    h.set_color(want.color); h.set_needs_trace(want.nt); h.set_live(want.live); h.set_next(nx);
+    let o = obs(&h);
+    (h, o)
 }
 
 #[kani::proof]
 fn k_hdr_tag_bits_free() {
-    // the four flag bits fit below the vtable's alignment and the vtable pointer has them clear
-    assert!(mem::align_of::<GcVtable>() >= 16);
-    assert!((vt() as *const GcVtable).addr() & 15 == 0);
+    // a fresh header: unmarked, not live, needs no tracing, unlinked, and it carries the vtable it was given
     let h = GcHeader::new(vt());
     assert!(h.color() == GcColor::White && !h.needs_trace() && !h.is_live() && h.next().is_none());
     assert!(ptr::eq(h.vtable(), vt()));
 }
 
+/// every field reads back what was written into it, whatever the other fields hold (built in one fixed order of setter calls)
 #[kani::proof]
 fn k_hdr_getters() {
-    let (h, bits) = any_header(None);
-    assert!(h.color() == color_of_bits(bits));
-    assert!(h.needs_trace() == (bits & 4 != 0));
-    assert!(h.is_live() == (bits & 8 != 0));
-    assert!(ptr::eq(h.vtable(), vt()));
+    let mut target = 0u8;
+    let h = GcHeader::new(vt());
+    let (c, nt, live) = (any_color(), kani::any::<bool>(), kani::any::<bool>());
+    let nx = any_next(&mut target);
+    h.set_color(c); h.set_needs_trace(nt); h.set_live(live); h.set_next(nx);
+    assert!(h.color() == c && h.needs_trace() == nt && h.is_live() == live, "[hdr] each flag reads back what was written");
+    assert!(h.next().map(|p| p.as_ptr() as usize) == nx.map(|p| p.as_ptr() as usize) && ptr::eq(h.vtable(), vt()), "[hdr] link and vtable pointer intact");
     kani::cover!(h.color() == GcColor::Black && h.is_live());
 }
 
 #[kani::proof]
 fn k_hdr_set_color() {
     let mut target = 0u8;
-    let nx = if kani::any() { Some(unsafe { GcPtr::from_ptr(&mut target as *mut u8 as *mut ()) }) } else { None };
-    let (h, bits) = any_header(nx);
+    let (h, o) = any_header(&mut target);
     let c = any_color();
     h.set_color(c);
-    assert!(h.color() == c);
-    assert!(h.needs_trace() == (bits & 4 != 0) && h.is_live() == (bits & 8 != 0));
-    assert!(h.next().map(|p| p.as_ptr() as usize) == nx.map(|p| p.as_ptr() as usize));
-    assert!(ptr::eq(h.vtable(), vt()));
+    assert!(obs(&h) == Obs { color: c, ..o }, "[hdr] set_color changes the colour only");
 }
 
 #[kani::proof]
 fn k_hdr_set_live() {
-    let (h, bits) = any_header(None);
+    let mut target = 0u8;
+    let (h, o) = any_header(&mut target);
     let v: bool = kani::any();
     h.set_live(v);
-    assert!(h.is_live() == v);
-    assert!(h.color() == color_of_bits(bits) && h.needs_trace() == (bits & 4 != 0) && h.next().is_none());
-    assert!(ptr::eq(h.vtable(), vt()));
+    assert!(obs(&h) == Obs { live: v, ..o }, "[hdr] set_live changes the live flag only");
 }
 
 #[kani::proof]
 fn k_hdr_set_needs_trace() {
-    let (h, bits) = any_header(None);
+    let mut target = 0u8;
+    let (h, o) = any_header(&mut target);
     let v: bool = kani::any();
     h.set_needs_trace(v);
-    assert!(h.needs_trace() == v);
-    assert!(h.color() == color_of_bits(bits) && h.is_live() == (bits & 8 != 0) && h.next().is_none());
-    assert!(ptr::eq(h.vtable(), vt()));
+    assert!(obs(&h) == Obs { nt: v, ..o }, "[hdr] set_needs_trace changes that flag only");
 }
 
 #[kani::proof]
 fn k_hdr_set_next() {
-    let mut target = 0u8;
-    let (h, bits) = any_header(None);
-    let nx = if kani::any() { Some(unsafe { GcPtr::from_ptr(&mut target as *mut u8 as *mut ()) }) } else { None };
+    let mut target = 0u8; let mut target2 = 0u8;
+    let (h, o) = any_header(&mut target);
+    let nx = any_next(&mut target2);
     h.set_next(nx);
-    assert!(h.next().map(|p| p.as_ptr() as usize) == nx.map(|p| p.as_ptr() as usize));
-    assert!(h.color() == color_of_bits(bits) && h.needs_trace() == (bits & 4 != 0) && h.is_live() == (bits & 8 != 0));
-    assert!(ptr::eq(h.vtable(), vt()));
+    assert!(obs(&h) == Obs { next: nx.map(|p| p.as_ptr() as usize), ..o }, "[hdr] set_next changes the link only");
 }
 
 // ------------------------------------------------------------------------------------------- layout kernel
